@@ -65,22 +65,24 @@ def natural_matrix(ctx):
     # CURRENT mesh whose physical position lies in a terminal polygon (harness oracle, independent of the device code)
     for xi in (0.5, 2.0):
         for name, v in (("0", [0.0, 0.0]), ("0.6+0.2j", [0.6, 0.2]), ("None", "none")):
-            runs.append(dict(label=f"bar/xi={xi}/psi={name}", dev="bar", xi=xi, field=0.5, current=2.0, steps=6, ramp=None, terminal_psi=v))
+            # the dimensionless cells shrink like 1/xi: a fixed step must shrink like 1/xi^2 to stay solvable
+            runs.append(dict(label=f"bar/xi={xi}/psi={name}", dev="bar", xi=xi, field=0.5, current=2.0, steps=6, ramp=None, terminal_psi=v,
+                             dt=(DT if xi < 1 else 2.0 ** -10)))
     runs.append(dict(label="tee/xi=0.5/psi=1/screening", dev="tee", xi=0.5, field=0.2, current=0.0, steps=3, ramp=None,
                      terminal_psi=[1.0, 0.0], screening=True, screening_tol=1e-2))
     for name, v in (("0", [0.0, 0.0]), ("1", [1.0, 0.0]), ("None", "none")):
-        runs.append(dict(label=f"bar/meshed twice (1.5 -> 0.7)/psi={name}", dev="bar", remesh=[1.5, 0.7], field=0.5, current=2.0,
-                         steps=6, ramp=None, terminal_psi=v))
-    runs.append(dict(label="barhole/xi=2/meshed twice (1.6 -> 0.9)/psi=0", dev="barhole", xi=2.0, remesh=[1.6, 0.9], field=0.5,
-                     current=2.0, steps=6, ramp=None, terminal_psi=[0.0, 0.0]))
+        runs.append(dict(label=f"bar/meshed twice (2.0 -> 0.5)/psi={name}", dev="bar", remesh=[2.0, 0.5], field=0.5, current=2.0,
+                         dt=2.0 ** -9, steps=6, ramp=None, terminal_psi=v))
+    runs.append(dict(label="barhole/xi=2/meshed twice (2.0 -> 0.6)/psi=0", dev="barhole", xi=2.0, remesh=[2.0, 0.6], field=0.5,
+                     current=2.0, dt=2.0 ** -9, steps=6, ramp=None, terminal_psi=[0.0, 0.0]))
     if not ctx.quick:
         for dev in ("barhole", "tee", "cross"):
             for xi in (0.5, 2.0, 3.0):
                 for name, v in (("0", [0.0, 0.0]), ("0.3j", [0.0, 0.3]), ("None", "none")):
                     runs.append(dict(label=f"{dev}/xi={xi}/psi={name}", dev=dev, xi=xi, field=0.6, current=(3.0 if dev == "barhole" else 0.0),
-                                     steps=12, ramp=None, terminal_psi=v))
-            runs.append(dict(label=f"{dev}/meshed three times/psi=0", dev=dev, remesh=[1.6, 1.0, 0.6], field=0.6,
-                             current=(3.0 if dev == "barhole" else 0.0), steps=10, ramp=None, terminal_psi=[0.0, 0.0]))
+                                     steps=12, ramp=None, terminal_psi=v, dt=(DT if xi < 1 else 2.0 ** -10)))
+            runs.append(dict(label=f"{dev}/meshed three times/psi=0", dev=dev, remesh=[2.0, 1.0, 0.5], field=0.6,
+                             current=(3.0 if dev == "barhole" else 0.0), dt=2.0 ** -9, steps=10, ramp=None, terminal_psi=[0.0, 0.0]))
     # equivalent API forms of configuring the terminal value: keyword (all runs above), attribute assignment after
     # construction (None -> value, value -> None, value -> other value), dataclasses.replace, copy / deepcopy / pickle
     # of an options object, options read back from a Solution file
@@ -136,7 +138,7 @@ def natural_matrix(ctx):
 def operator_level(ctx, rnd):
     inv_ops = oc.INV_C06_OPS + ["RefreshEqualsRebuild"]
     # ---- 1. operator level
-    jobs = oc.ops_level(ctx, "C06", inv_ops, rnd, nsample=100 if ctx.quick else 8000, short=3,
+    jobs = oc.ops_level(ctx, "C06", inv_ops, rnd, nsample=60 if ctx.quick else 8000, short=3,
                         mutants=[m for m in oc.OPS_MUTANTS if m[0] in ("MMask", "MFixPsi")] if ctx.quick else None)
     ops_traces = [t for r in rf.replay_all(ctx, jobs) for t in r]
     good = oc.judge_ops_traces(ctx, "C06", ops_traces, inv_ops)
@@ -179,8 +181,9 @@ def solver_level(ctx):
     for a, t in zip(nat, nat_traces):
         if t["mode"] != "none" and t["info"]["terminal_sites"] < 4:
             raise core.MachineryFailure(f"C06: the geometric oracle finds {t['info']['terminal_sites']} terminal sites in {a['label']}")
-    if sum(1 for t in nat_traces if t["mode"] != "none" and t["info"]["xi"] != 1.0) < 4:
-        raise core.MachineryFailure("C06: devices with coherence_length != 1 length unit are missing")
+    if sum(1 for t in nat_traces if t["mode"] != "none" and t["info"]["xi"] < 1.0) < 2 or \
+            sum(1 for t in nat_traces if t["mode"] != "none" and t["info"]["xi"] > 1.0) < 2:
+        raise core.MachineryFailure("C06: devices with coherence_length < 1 and > 1 length unit are missing (runs refused?)")
     if sum(1 for t in nat_traces if t["info"]["remeshed"] and t["info"]["remeshed"][-1][1] > t["info"]["remeshed"][0][1]
            and t["info"]["remeshed"][-1][0] != t["info"]["remeshed"][0][0]) < 2:
         raise core.MachineryFailure("C06: re-meshed devices whose second mesh has more terminal sites are missing")
